@@ -695,6 +695,18 @@ static char *read_file(char *path) {
     fwrite(buf2, 1, n, out);
   }
 
+  // A read error (EISDIR if the path names a directory) means that
+  // the file cannot be read, not that it is empty.
+  if (ferror(fp)) {
+    int err = errno;
+    if (fp != stdin)
+      fclose(fp);
+    fclose(out);
+    free(buf);
+    errno = err;
+    return NULL;
+  }
+
   if (fp != stdin)
     fclose(fp);
 
